@@ -66,6 +66,19 @@ def protein_op(g, rg, out="out.itp", **json_kw):
             "graph": {"kind": "json", "text": ffgen.graph_json(rg, **json_kw)}, "out": out, "resgraph": rg}
 
 
+def dna_graph(g):
+    """single strand over the shipped DNA blocks (5' and 3' terminal residue names at the ends)"""
+    n = g.randint(3, 7)
+    bases = "ACGT"
+    seq = ["D" + g.choice(bases) + "5"] + ["D" + g.choice(bases) for _ in range(n - 2)] + ["D" + g.choice(bases) + "3"]
+    return {"shape": "linear", "resnames": seq, "edges": [[k, k + 1] for k in range(n - 1)]}
+
+
+def dna_op(g, rg, lib, dsdna, out="out.itp", **json_kw):
+    return {"op": "gen_params", "name": "DNA", "files": [], "lib": [lib], "dsdna": bool(dsdna),
+            "graph": {"kind": "json", "text": ffgen.graph_json(rg, **json_kw)}, "out": out, "resgraph": rg}
+
+
 LIB_BLOCKS = {"martini3": ["PEO", "PS", "PMMA", "PE", "P3HT", "PMA", "PSS", "PVA"], "martini2": ["PEO", "PS", "PE", "PP"],
               "2016H66": ["PMMA", "PEO", "PE", "PVA"], "gromos53A6": ["P3HT"], "oplsaaLigParGen": ["PEO"]}
 
